@@ -24,7 +24,13 @@ def _alarm(*a):
 # ------------------------------------------------------------------ abstract elections and their BLT rendering
 def gen_election(rng, family=None, maxc=7, maxb=9):
     """e = dict(n, s, wd, und, tie, lines=[(m, ranking)], eq=[(m, [[cids]..])], names)"""
-    family = family or rng.choice(['small', 'small', 'tie', 'tie', 'nearquota', 'chain', 'starved', 'withdrawn', 'bigmult', 'mid'])
+    family = family or rng.choice(['small', 'small', 'tie', 'tie', 'nearquota', 'chain', 'starved', 'withdrawn', 'bigmult', 'mid', 'cross', 'coalition'])
+    if family == 'cross': return gen_scot_cross(rng)
+    if family == 'coalition': return gen_coalition(rng) if rng.random() < 0.6 else gen_multisurplus(rng)
+    if family == 'multisurplus': return gen_multisurplus(rng)
+    if family == 'exactquota4': return gen_exact_quota(rng, 4)
+    if family == 'exactquota5': return gen_exact_quota(rng, 5)
+    if family == 'exactquota9': return gen_exact_quota(rng, 9)
     if family == 'chain': n = rng.randint(4, max(maxc, 9))
     elif family == 'mid': n = rng.randint(5, 12)
     else: n = rng.randint(2, maxc)
@@ -87,6 +93,143 @@ def gen_writein_election(rng):
         lines.append((1, rng.sample(range(1, n + 1), rng.randint(1, n))))
     tie = list(range(1, n + 1)); rng.shuffle(tie)
     return dict(n=n, s=s, wd=[], und=und, tie=tie, lines=lines, eq=[], names=['c%d' % i for i in range(1, n + 1)], family='writein')
+
+def _finish(rng, n, s, lines, names=None, shuffle_ids=True):
+    """random renumbering of candidates so that structure is not tied to ids; random tie order"""
+    ids = list(range(1, n + 1))
+    perm = ids[:]
+    if shuffle_ids: rng.shuffle(perm)
+    m = dict(zip(ids, perm))
+    lines = [(mult, [m[c] for c in r]) for mult, r in lines]
+    rng.shuffle(lines)
+    tie = ids[:]; rng.shuffle(tie)
+    return dict(n=n, s=s, wd=[], und=[], tie=tie, lines=lines, eq=[], names=['c%d' % i for i in ids], family='directed')
+
+def gen_scot_cross(rng):
+    """two candidates tie for exclusion at stage 3+ after their order crossed at earlier stages
+    (Scottish 51(2): most recent stage at which they differed)"""
+    # candidates: 1=A leader, 2=B, 3=C, 4=D, 5=E (+ optional low extras transferring to A)
+    b = rng.randint(4, 9); d1 = rng.randint(1, 2)           # B starts d1 below C
+    c = b + d1
+    e = rng.randint(d1 + 1, d1 + 2)                          # E's ballots go to B: B overtakes C
+    gap = b + e - c                                          # B - C after E's exclusion (> 0)
+    dd = gap + rng.randint(1, 3)                             # D has more than E; gap of them go to C -> tie
+    if dd <= e: dd = e + 1
+    a = max(b + e, c + gap) + rng.randint(2, 5)
+    lines = [(a, [1]), (b, [2, 1]), (c, [3, 1]), (e, [5, 2, 1]), (gap, [4, 3, 1])]
+    if dd - gap > 0: lines.append((dd - gap, [4, 1]))
+    n = 5
+    total = sum(m for m, _ in lines)
+    seats = 1
+    # keep A below the quota so that exclusions happen: quota = total//2 + 1
+    if a >= total // 2 + 1:
+        lines.append((2 * a - total + 2, [rng.choice([2, 3])]))  # breaks the construction sometimes; fine
+    return _finish(rng, n, seats, lines)
+
+def gen_coalition(rng):
+    """a solid coalition S barely above k quotas, with one strong member (pending surplus) and weak members
+    that sure-loser batches may wrongly exclude; outsiders bullet-vote"""
+    n = rng.randint(4, 7)
+    size = rng.randint(2, min(4, n - 1))
+    S = list(range(1, size + 1)); out = list(range(size + 1, n + 1))
+    seats = rng.randint(1, min(3, n - 1))
+    k = rng.randint(1, min(seats, size))
+    N = rng.randint(12, 40)
+    G = (k * N) // (seats + 1) + rng.randint(1, 3)           # just above k quotas
+    if G >= N: G = N - 1
+    lines = []
+    # one or more strong members hold most of the coalition's first preferences; the rest get few or none
+    nstrong = rng.randint(1, max(1, min(k, size - 1)))
+    def srank(first):
+        others = [c for c in S if c != first]; rng.shuffle(others)
+        tail = out[:]; rng.shuffle(tail)
+        return [first] + others + tail[:rng.randint(0, len(tail))]
+    weakm = S[nstrong:]
+    weak_tot = min(G - nstrong, rng.randint(0, 2 * len(weakm))) if weakm else 0
+    weak_tot = max(0, weak_tot)
+    cuts = sorted(rng.randint(0, G - weak_tot) for _ in range(nstrong - 1))
+    shares = [b_ - a_ for a_, b_ in zip([0] + cuts, cuts + [G - weak_tot])]
+    if rng.random() < 0.5:   # near-equal strong members
+        base = (G - weak_tot) // nstrong
+        shares = [base + (1 if i < (G - weak_tot) % nstrong else 0) for i in range(nstrong)]
+    for c, sh in zip(S[:nstrong], shares):
+        if sh > 0: lines.append((sh, srank(c)))
+    for i, c in enumerate(weakm):
+        share = weak_tot // len(weakm) + (1 if i < weak_tot % len(weakm) else 0)
+        if share > 0: lines.append((share, srank(c)))
+    o = N - G
+    for i, c in enumerate(out):
+        share = o // len(out) + (1 if i < o % len(out) else 0)
+        if share > 0:
+            tail = [x for x in out if x != c]; rng.shuffle(tail)
+            lines.append((share, [c] + tail[:rng.randint(0, len(tail))]))
+    return _finish(rng, n, seats, lines)
+
+def gen_multisurplus(rng):
+    """several candidates elected at once with small pending surpluses pointing at weak candidates whose
+    totals sit between 'lowest + largest surplus' and 'lowest + all surpluses' of the next candidate"""
+    for _ in range(20000):
+        seats = rng.randint(2, 4); k = rng.randint(2, seats)
+        q = rng.randint(5, 12)
+        ds = [rng.randint(1, 4) for _ in range(k)]
+        nweak = rng.randint(2, 4)
+        weak = sorted(rng.randint(0, q - 1) for _ in range(nweak))
+        N = sum(q + d for d in ds) + sum(weak)
+        if N // (seats + 1) + 1 != q: continue
+        n = k + nweak
+        if n <= seats: continue
+        lines = []
+        wk = list(range(k + 1, n + 1))
+        for i, d in enumerate(ds):
+            tail = wk[:]; rng.shuffle(tail)
+            if rng.random() < 0.6: tail.sort(key=lambda c: weak[c - k - 1])      # surpluses go to the weakest first
+            lines.append((q + d, [i + 1] + tail[:rng.randint(1, len(tail))]))
+        for j, w in enumerate(weak):
+            if w > 0:
+                tail = [c for c in wk if c != k + 1 + j]; rng.shuffle(tail)
+                lines.append((w, [k + 1 + j] + tail[:rng.randint(0, len(tail))]))
+        return _finish(rng, n, seats, lines)
+    return gen_coalition(rng)
+
+def exact_quota_params(o):
+    """(precision, quota kind) of the WIGM-style rule selected by options o, or None"""
+    r = o['rule']
+    if r in ('wigm-prf', 'wigm-prf-batch'): return (4, 'fixed')
+    if r == 'scotland': return (5, 'int')
+    if r == 'mpls': return (4, 'int')
+    if r in ('cfer', 'cfer-batch'): return (5, 'int')
+    if r == 'wigm' and o.get('arithmetic') in ('fixed', 'guarded') and o.get('precision') and o['precision'] <= 9:
+        if o.get('arithmetic') == 'guarded' and o.get('guard', o['precision']) != 0: return None
+        return (o['precision'], 'int' if o.get('integer_quota') else 'fixed')
+    return None
+
+def gen_exact_quota(rng, p=4, kind='fixed'):
+    """an elected candidate's surplus lands a second candidate exactly on the quota
+    (floor(N*S/(s+1)) + 1 raw units, or the whole-vote quota): found by random search over small parameters"""
+    S = 10 ** p
+    for _ in range(200000):
+        seats = rng.choice([2, 2, 3])
+        v = rng.randint(6, 140); a = rng.randint(1, 40); f = rng.randint(2, 80)
+        N = v + a + f
+        q = N * S // (seats + 1) + 1 if kind == 'fixed' else (N // (seats + 1) + 1) * S
+        if v * S < q: continue
+        w = (v * S - q) // v
+        if w <= 0: continue
+        need = q - a * S
+        if need <= 0 or need % w: continue
+        k = need // w
+        if k > v or k < 1: continue
+        # fillers: spread f ballots over other candidates, each below the quota and above zero
+        nf = max(2, (f * S) // q + 1 + rng.randint(0, 1))
+        lines = [(k, [1, 2]), (a, [2])]
+        if v - k > 0: lines.append((v - k, [1]))
+        for i in range(nf):
+            share = f // nf + (1 if i < f % nf else 0)
+            if share > 0: lines.append((share, [3 + i]))
+        n = 2 + nf
+        if n <= seats or N < n: continue
+        return _finish(rng, n, seats, lines)
+    return gen_election(rng, 'nearquota')
 
 def add_undeclared(rng, e):
     elig = [c for c in range(1, e['n'] + 1) if c not in e['wd']]
